@@ -156,7 +156,7 @@ func (c *pfChild) pfCommitLedgerFault(round int, nondet bool) {
 	}
 	ledger.ResetCalls()
 	ledger.FailAt[round%4] = true
-	err := c.watched(commitName(nondet)+" with a failing ledger call", 10*time.Second, func() error {
+	err := c.watched(commitName(nondet)+" with a failing ledger call", 60*time.Second, func() error {
 		if nondet {
 			return ps.NondeterministicFastCommit(8)
 		}
@@ -219,7 +219,7 @@ func (c *pfChild) pfCommitEncodeFailure(nondet bool, slow bool) {
 		_ = ps.Remove(hx.MkIDn(3, uint64(i+1)))
 	}
 	ledger.ResetCalls()
-	err := c.watched(what, 10*time.Second, func() error {
+	err := c.watched(what, 60*time.Second, func() error {
 		if nondet {
 			return ps.NondeterministicFastCommit(workers)
 		}
@@ -306,7 +306,7 @@ func (c *pfChild) pfPreloadDecodeFailure(round int) {
 		runtime.GOMAXPROCS([]int{2, 4, 16}[c.rng.Intn(3)])
 		par := hx.NewStorage(ledger)
 		ledger.Jitter = workers > 1
-		errPar := c.watched(what, 10*time.Second, func() error { return par.BatchPreload(ids, workers) })
+		errPar := c.watched(what, 60*time.Second, func() error { return par.BatchPreload(ids, workers) })
 		ledger.Jitter = false
 		c.hit("preload-decode-failure")
 		if errPar == nil || errSeq == nil || hx.ErrKind(errSeq) != hx.ErrKind(errPar) {
@@ -398,7 +398,7 @@ func (c *pfChild) pfPreloadReadFailure(round int) {
 		what := fmt.Sprintf("BatchPreload(%d identifiers, %d workers) with a failing ledger read at position %d", n, workers, k)
 		c.scenario("%s", what)
 		par := hx.NewStorage(ledger)
-		err := c.watched(what, 10*time.Second, func() error { return par.BatchPreload(ids, workers) })
+		err := c.watched(what, 60*time.Second, func() error { return par.BatchPreload(ids, workers) })
 		c.hit("preload-read-failure")
 		if err == nil || hx.ErrKind(err) != "Injected:External" {
 			c.violation("", "%s: returned %v", what, err)
